@@ -4,6 +4,7 @@
 ENUM parts: AMP path encoding and AMP cache URLs (common/amp), fronting and response limits of the two
 client rendezvous methods (client/lib).  The endpoint-equivalence clause (broker /client vs
 /amp/client/) is checked under the scheduler in the broker harness, not here."""
+import glob
 import os
 import sys
 
@@ -26,6 +27,9 @@ def main():
         enumlib.report(rep, res, RULE)
         b2 = enumlib.build("c11-client", "client/lib", {"zz_verif_c11_test.go": os.path.join(vlib.VERIF, "harness/clientlib/c11_test.go")})
         res = enumlib.run(b2, "TestVerifEnumC11Client", tier, 50 if tier == "quick" else 700)
+        enumlib.report(rep, res, RULE)
+        b3 = enumlib.build("broker-enum", "broker", {"zz_verif_" + os.path.basename(f): f for f in glob.glob(os.path.join(vlib.VERIF, "harness", "broker_enum", "*_test.go"))})
+        res = enumlib.run(b3, "TestVerifEnumC11Endpoints", tier, 60 if tier == "quick" else 300)
         enumlib.report(rep, res, RULE)
     except vlib.EngineError as e:
         rep.engine_errors.append(str(e))
